@@ -188,3 +188,35 @@ func H_C18_llmnr_close() {
 	}
 	vCover("end")
 }
+
+// Close overtaking the start of the server (no socket yet): the shutdown signal is still given, so that a Serve which
+// starts afterwards on a supplied socket returns at once instead of serving for ever.
+func H_C18_llmnr_close_before_serve() {
+	conn, peer, ok := c18loopback()
+	if !ok {
+		return
+	}
+	defer peer.Close()
+	defer conn.Close()
+	s := &Server{Handlers: []Handler{HandlerFunc(func(*Server, net.Addr, ResponseWriter, *Message) bool { return false })},
+		Closed: make(chan struct{}), Network: "udp4"}
+	s.Close()
+	select {
+	case <-s.Closed:
+	default:
+		vCheck(false, "llmnr/close/before-start-still-signals-shutdown")
+	}
+	s.Conn = conn
+	conn.SetReadDeadline(time.Now().Add(2 * time.Second)) // so that a native run of a broken Serve ends
+	done := make(chan struct{})
+	go func() {
+		s.Serve()
+		close(done)
+	}()
+	select {
+	case <-done:
+	case <-time.After(500 * time.Millisecond):
+		vCheck(false, "llmnr/close/serve-after-close-returns")
+	}
+	vCover("end")
+}
